@@ -9,6 +9,7 @@ import (
 	"path/filepath"
 	"strconv"
 	"strings"
+	"time"
 
 	"moqsym/exec"
 	"moqsym/smt"
@@ -342,6 +343,61 @@ func runImports(ic *IC, ex *exec.Exec, env *Env, sh impShape, bound int) {
 	added = append(added, len(sh.Pkgs))
 	ic.Witness(ex, nil)
 	check("adding sync", added)
+	if fp, _ := ex.User["fixpoint"].(bool); fp {
+		if kf := env.KF.Open("C15", "fixpoint:source-alias-equals-other-package-name"); kf != nil {
+			for i := range ir.pkgs {
+				if ir.alias[i] == nil {
+					continue
+				}
+				for j := range ir.pkgs {
+					if j != i {
+						ex.AssumeDomain(c.Not(c.Eq(ir.alias[i], ir.names[j])))
+					}
+				}
+				ex.AssumeDomain(c.Not(c.Eq(ir.alias[i], c.StrC("sync"))))
+			}
+			ic.kfHit("C15", "fixpoint:source-alias-equals-other-package-name")
+		}
+		// ---- C15: run the same history again with the aliases of the first output in the package ----
+		first := registryImports(ex, repo, ir.reg)
+		var aliasKV2 []exec.Value
+		for k, e := range first {
+			i := added[k]
+			a2 := e.Alias // what the generated file's import declaration says ("" = no alias)
+			if i < len(ir.alias) && ir.alias[i] != nil {
+				// the source file has its own alias for this path; parseImportsAliases lets the later file win
+				if chooseVar(ex, "outcome_generated_file_sorts_last", 2) == 1 {
+					a2 = c.Ite(c.Eq(e.Alias, c.StrC("")), ir.alias[i], e.Alias)
+				} else {
+					a2 = ir.alias[i]
+				}
+			}
+			aliasKV2 = append(aliasKV2, e.Key, a2)
+		}
+		reg2 := newRegistry(ex, repo, RegistryCfg{SrcPkgName: c.StrC("src"), SrcPkg: &MPkg{Name: c.StrC("src"), Path: c.StrC(impPrefix + "/src"), Tag: "src"},
+			MoqPkgPath: c.StrC(impPrefix + "/src"), Aliases: aliasKV2})
+		for i := range sh.Pkgs {
+			if _, pan := ex.CallCatch(addImport, []exec.Value{reg2, ir.pkgs[i]}); pan != nil {
+				ex.Fail("C15/C19: AddImport panics when the previous output is part of the package: " + pan.Msg)
+				return
+			}
+		}
+		if _, pan := ex.CallCatch(addImport, []exec.Value{reg2, &MPkg{Name: c.StrC("sync"), Path: c.StrC("sync"), Tag: "NewPackage"}}); pan != nil {
+			ex.Fail("C15/C19: AddImport(sync) panics when the previous output is part of the package: " + pan.Msg)
+			return
+		}
+		second := registryImports(ex, repo, reg2)
+		if len(second) != len(first) {
+			ex.Fail("C15: the second generation has a different number of imports")
+			return
+		}
+		var same []*smt.Term
+		for k := range first {
+			same = append(same, c.Eq(qualifierOf(ex, first[k]), qualifierOf(ex, second[k])), c.Eq(first[k].Key, second[k].Key))
+		}
+		ex.Oblige(c.And(same...), "C15: regenerating with the previous output left in the package yields the same import qualifiers (the output is a fixed point)")
+		return
+	}
 	// the destination package itself is never imported
 	self := &MPkg{Name: c.StrC("src"), Path: c.StrC(impPrefix + "/src"), Tag: "self"}
 	r, pan := ex.CallCatch(addImport, []exec.Value{ir.reg, self})
@@ -633,4 +689,105 @@ func importsUnwinding(ic *IC, st *exec.Stats, sh impShape, exact func(model map[
 	if spurious > 0 {
 		ic.note(fmt.Sprintf("H.imports/%s: %d unwinding models came from the over-approximating replacer summary and terminate under exact concrete execution (dropped)", sh.Name, spurious))
 	}
+}
+
+// HFixpoint: C15, second half — moq's own output is a fixed point of moq as far as import aliases go.
+func HFixpoint() *Harness {
+	hh := &Harness{
+		ID:    "H.fixpoint",
+		Doc:   "an AddImport history is run twice from SSA: the second time the registry's source aliases are those parseImportsAliases harvests from the first output (merged with the source file's own aliases in either file order): every import keeps its qualifier",
+		Funcs: []string{"internal/registry.(*Registry).AddImport", "internal/registry.(Registry).resolveImportConflict", "internal/registry.(Package).uniqueName"},
+		Assumptions: []string{"same input assumptions and known-finding classes as H.imports; the first run ends with unique, valid qualifiers (otherwise its output does not compile and the second load fails, C15's own proviso)",
+			"the rest of the generated text is a function of (aliases, identifiers, flags): C14 plus determinism of text/template and go/format"},
+		Outside: []string{"identifiers of parameters (they do not depend on the package's files)", "more than 2 packages"},
+		Confirm: func(ic *IC, ob *exec.Obligation) *Violation {
+			sh := importsShapeByName(ic.Name)
+			if sh == nil {
+				return nil
+			}
+			return fixpointReplay(ic, *sh, ob.Label, ob.Model)
+		},
+	}
+	hh.Instances = func(env *Env) []Instance {
+		bound := 5
+		hh.Bounds = []string{"history shapes 1+1, 2+2, 1+2, alias+plain, plain+alias; segments and names ≤ 5 chars"}
+		var out []Instance
+		for _, sh := range impShapes("quick") {
+			switch sh.Name {
+			case "1+1", "2+2", "1+2", "alias+plain", "plain+alias":
+			default:
+				continue
+			}
+			sh := sh
+			out = append(out, Instance{Name: sh.Name, Run: func(ic *IC) *exec.Stats {
+				ic.StrBound = bound
+				ic.MaxDepth = 16
+				ic.MaxPaths = 30000
+				st := ic.Explore(func(ex *exec.Exec) {
+					ex.User["fixpoint"] = true
+					runImports(ic, ex, env, sh, bound)
+				})
+				st.Unwinding = nil // non-termination is H.imports' business
+				return st
+			}})
+		}
+		return out
+	}
+	return hh
+}
+
+// fixpointObserve: generate in place, generate again, compare bytes.
+func (env *Env) fixpointObserve(sh impShape, model map[string]string) (differs bool, tr string, cs *CLICase, err error) {
+	cs = importsCase(sh, model)
+	outName := "aa_mock_gen.go" // sorts before the source file x.go: the source file's aliases win
+	for k, v := range model {
+		if strings.HasPrefix(k, "outcome_generated_file_sorts_last") && v == "1" {
+			outName = "zz_mock_gen.go"
+		}
+	}
+	cs.Args = []string{"-out", outName, ".", "I"}
+	bin, err := env.MoqBin()
+	if err != nil {
+		return false, "", cs, err
+	}
+	root, err := os.MkdirTemp(env.scratch(), "fix-")
+	if err != nil {
+		return false, "", cs, err
+	}
+	defer os.RemoveAll(root)
+	writeTree(root, cs.Files)
+	cwd := filepath.Join(root, "src")
+	o1, e1 := runCmd(cwd, 2*time.Minute, cliEnv(), bin, cs.Args...)
+	b1, _ := os.ReadFile(filepath.Join(cwd, outName))
+	o2, e2 := runCmd(cwd, 2*time.Minute, cliEnv(), bin, cs.Args...)
+	b2, _ := os.ReadFile(filepath.Join(cwd, outName))
+	tr = fmt.Sprintf("moq "+strings.Join(cs.Args, " ")+"\nfirst run: err=%v %s\nsecond run: err=%v %s\nidentical=%v (%d vs %d bytes)\n", e1, short(o1, 200), e2, short(o2, 200), string(b1) == string(b2), len(b1), len(b2))
+	return e1 == nil && (e2 != nil || string(b1) != string(b2)), tr, cs, nil
+}
+
+func fixpointReplay(ic *IC, sh impShape, label string, model map[string]string) *Violation {
+	env := ic.Env
+	var kv []string
+	for _, k := range sortedKeys(model) {
+		if strings.HasPrefix(k, "p") && !strings.Contains(k, "$") {
+			kv = append(kv, k+"="+model[k])
+		}
+	}
+	key := "fixpoint:" + sh.Name + ":" + strings.Join(kv, ",")
+	v := &Violation{Property: "C15", Harness: ic.H.ID, Instance: ic.Name, Label: label, Model: model, Key: key}
+	dir := env.replayDir("C15", key)
+	v.Replay = dir
+	differs, tr, cs, err := env.fixpointObserve(sh, model)
+	if cs != nil {
+		writeTree(filepath.Join(dir, "tree"), cs.Files)
+	}
+	os.WriteFile(filepath.Join(dir, "replay.sh"), []byte("#!/bin/sh\n# realised input under tree/: run moq twice with -out (command in replay.out) inside tree/src and compare the two files\ncat \"$(dirname \"$0\")/replay.out\"\n"), 0o755)
+	if err != nil {
+		v.Detail = err.Error()
+		return v
+	}
+	os.WriteFile(filepath.Join(dir, "replay.out"), []byte(tr), 0o644)
+	v.Confirmed = differs
+	v.Detail = tr
+	return v
 }
